@@ -189,7 +189,18 @@ def get_sample_times(waveforms: Union[Collection[Waveform], Waveform],
         segment_lengths.append(rounded_segment_length)
 
     segment_lengths = np.asarray(segment_lengths, dtype=np.uint64)
-    time_array = np.arange(np.max(segment_lengths), dtype=float) / float(sample_rate_in_GHz)
+    sample_indices = np.arange(np.max(segment_lengths), dtype=float)
+    numerator = getattr(sample_rate_in_GHz, 'numerator', None)
+    denominator = getattr(sample_rate_in_GHz, 'denominator', None)
+    if (numerator is not None and denominator is not None
+            and 0 < int(numerator) < 2**53 and 0 < int(denominator) * max(sample_indices.size, 1) <= 2**53):
+        # The sample rate is an exact fraction. float(sample_rate) is rounded for rates like 9/5 GHz and
+        # k / float(sample_rate) would be rounded twice: it is one ulp below the double nearest to k / sample_rate for
+        # some k and a sample that lies exactly on a jump of the waveform would get the value from before the jump.
+        # k * denominator is exact here, so the division is the only rounding.
+        time_array = (sample_indices * float(int(denominator))) / float(int(numerator))
+    else:
+        time_array = sample_indices / float(sample_rate_in_GHz)
 
     return time_array, segment_lengths
 
